@@ -136,6 +136,48 @@ def extra(tier, seed, deadline):
             return _ld.Loader(patches=_ld.CURRENT_PATCHES).load("batchie.scoring.gaussian_dbal").get_combination_at_sorted_index
         return importlib.import_module("batchie.scoring.gaussian_dbal").get_combination_at_sorted_index
     rep = c15_lemmas.run(tier, seed, deadline, real_fn)
+    ch = None
+    from .. import loader as _ld2
+    if tier == "thorough" and not _ld2.CURRENT_PATCHES:
+        from ..crosshair_x import run_contracts
+        ch = run_contracts(CROSSHAIR_CONTRACTS)
+        for cx in ch["counterexamples"]:
+            rep.inconclusive.append("CrossHair cross-check disagrees (counterexample on the real function): %s" % cx)
+    d = _extra_dict(rep)
+    if ch is not None:
+        d["coverage"]["crosshair_cross_check"] = {k: v for k, v in ch.items() if k != "raw"}
+    return d
+
+
+CROSSHAIR_CONTRACTS = '''
+from batchie.scoring.gaussian_dbal import get_combination_at_sorted_index
+
+
+def _succ_ok_k3(index: int) -> bool:
+    """
+    pre: 0 <= index < 83
+    post: _
+    """
+    n, k = 9, 3
+    a = get_combination_at_sorted_index(index, n, k)
+    b = get_combination_at_sorted_index(index + 1, n, k)
+    ok = all(a[i] > a[i + 1] for i in range(k - 1)) and 0 <= a[-1] and a[0] < n
+    return ok and a < b
+
+
+def _succ_ok_k2(index: int) -> bool:
+    """
+    pre: 0 <= index < 65
+    post: _
+    """
+    n, k = 12, 2
+    a = get_combination_at_sorted_index(index, n, k)
+    b = get_combination_at_sorted_index(index + 1, n, k)
+    return a[0] > a[1] >= 0 and a[0] < n and a < b
+'''
+
+
+def _extra_dict(rep):
     return dict(stats=rep.stats, labels=rep.labels, samples=rep.samples, violations=rep.violations, inconclusive=rep.inconclusive,
                 evaluations=rep.stats["obligations"], distinct_nontrivial=rep.stats["discharged"],
                 coverage=dict(unbounded_lemmas=dict(
